@@ -548,9 +548,12 @@ impl<Context: ServerContext> HttpRouter<Context> {
             if let Some(hdrs) = err.headers.as_deref_mut() {
                 hdrs.reserve(node.methods.len());
             }
-            for allowed in node.methods.keys() {
-                err.add_header(http::header::ALLOW, allowed)
-                    .expect("method should be a valid allow header");
+            // Only list methods that have a handler for this version.
+            for (allowed, handlers) in node.methods.iter() {
+                if find_handler_matching_version(handlers, version).is_some() {
+                    err.add_header(http::header::ALLOW, allowed)
+                        .expect("method should be a valid allow header");
+                }
             }
             Err(err)
         } else {
